@@ -70,6 +70,7 @@ func InitGenesis(
 // ExportGenesis exports genesis state of the EVM module
 func ExportGenesis(ctx sdk.Context, k *evmkeeper.Keeper) *evmtypes.GenesisState {
 	var ethGenAccounts []evmtypes.GenesisAccount
+	exportedContracts := make(map[common.Address]struct{})
 	k.IterateContracts(ctx, func(addr common.Address, codeHash common.Hash) bool {
 		if evmtypes.IsEmptyCodeHash(codeHash) {
 			// ignore non-contract accounts
@@ -85,8 +86,26 @@ func ExportGenesis(ctx sdk.Context, k *evmkeeper.Keeper) *evmtypes.GenesisState 
 		}
 
 		ethGenAccounts = append(ethGenAccounts, genAccount)
+		exportedContracts[addr] = struct{}{}
 		return false
 	})
+
+	// An account can hold storage without code (contract creation which wrote storage and returned empty code),
+	// such account is not tracked by code hash, but its storage is part of the state and must be exported too.
+	var storageOnlyAddresses []common.Address
+	k.IterateStorageOwners(ctx, func(addr common.Address) bool {
+		if _, exported := exportedContracts[addr]; !exported {
+			storageOnlyAddresses = append(storageOnlyAddresses, addr)
+		}
+		return false
+	})
+	for _, addr := range storageOnlyAddresses {
+		ethGenAccounts = append(ethGenAccounts, evmtypes.GenesisAccount{
+			Address: addr.String(),
+			Code:    "",
+			Storage: k.GetAccountStorage(ctx, addr),
+		})
+	}
 
 	return &evmtypes.GenesisState{
 		Accounts: ethGenAccounts,
